@@ -49,6 +49,15 @@ enum Op {
     MkForce,
     DropForce,
     WaitForData,
+    /// `slot_guard.delay_flush(parent.flush_guard())` on a guard opened in discard mode
+    DelayFlushSlot,
+    DelayFlushLazy,
+    /// `parent.child = Slot::default()` while the slot's guard is out: the guard is orphaned
+    /// (its value can no longer be delivered) but keeps whatever flush guard it holds
+    RearmSlot,
+    /// `orphan.delay_flush(parent.flush_guard())`
+    DelayFlushOrphan,
+    DropOrphan,
 }
 
 #[derive(Clone, Copy, Debug, PartialEq, Eq, PartialOrd, Ord, Hash)]
@@ -66,6 +75,9 @@ struct Model {
     lazy: SlotM,
     force_alive: bool,
     force_dropped: bool,
+    /// the guard of a slot that was re-armed: Some(holds a flush guard)
+    orphan: Option<bool>,
+    rearmed: bool,
     /// what the appended entry must contain: (a, n, m)
     appended: Option<(u64, Option<u64>, Option<u64>)>,
 }
@@ -76,7 +88,7 @@ impl Model {
             return;
         }
         let holding = |s: &SlotM| matches!(s, SlotM::Open { wait: true, .. });
-        if (!holding(&self.slot) && !holding(&self.lazy)) || self.force_dropped {
+        if (!holding(&self.slot) && !holding(&self.lazy) && self.orphan != Some(true)) || self.force_dropped {
             let val = |s: &SlotM| match s {
                 SlotM::Returned { value } => Some(*value),
                 _ => None,
@@ -110,6 +122,22 @@ impl Model {
             if matches!(self.slot, SlotM::Returned { .. }) {
                 v.push(Op::WaitForData);
             }
+            // (also on a guard that already holds a flush guard: a redundant call changes nothing)
+            if matches!(self.slot, SlotM::Open { .. }) {
+                v.push(Op::DelayFlushSlot);
+            }
+            if matches!(self.lazy, SlotM::Open { .. }) {
+                v.push(Op::DelayFlushLazy);
+            }
+            if matches!(self.slot, SlotM::Open { .. }) && !self.rearmed {
+                v.push(Op::RearmSlot);
+            }
+            if self.orphan.is_some() {
+                v.push(Op::DelayFlushOrphan);
+            }
+        }
+        if self.orphan.is_some() {
+            v.push(Op::DropOrphan);
         }
         if matches!(self.slot, SlotM::Open { .. }) {
             v.push(Op::MutSlot);
@@ -151,6 +179,25 @@ impl Model {
                 }
             }
             Op::MutParent => self.a += 1,
+            Op::DelayFlushSlot => {
+                if let SlotM::Open { wait, .. } = &mut self.slot {
+                    *wait = true
+                }
+            }
+            Op::DelayFlushLazy => {
+                if let SlotM::Open { wait, .. } = &mut self.lazy {
+                    *wait = true
+                }
+            }
+            Op::RearmSlot => {
+                if let SlotM::Open { wait, .. } = self.slot {
+                    self.orphan = Some(wait);
+                    self.rearmed = true;
+                    self.slot = SlotM::Unopened;
+                }
+            }
+            Op::DelayFlushOrphan => self.orphan = Some(true),
+            Op::DropOrphan => self.orphan = None,
             Op::DropParent | Op::EmitParent => self.parent_alive = false,
             Op::MkForce => self.force_alive = true,
             Op::DropForce => {
@@ -167,6 +214,7 @@ struct World {
     parent: Option<AppendAndCloseOnDrop<Work, Sink>>,
     slot_guard: Option<SlotGuard<Child>>,
     lazy_guard: Option<SlotGuard<Child2>>,
+    orphan: Option<SlotGuard<Child>>,
     force: Option<ForceFlushGuard>,
     problems: Vec<String>,
     /// environment of this replay: every drop happens by the unwinding of a caught panic
@@ -196,6 +244,7 @@ impl World {
             sink,
             slot_guard: None,
             lazy_guard: None,
+            orphan: None,
             force: None,
             problems: vec![],
         }
@@ -234,6 +283,23 @@ impl World {
             Op::DropSlotGuard => drop_it(self.slot_guard.take(), self.unwinding),
             Op::DropLazyGuard => drop_it(self.lazy_guard.take(), self.unwinding),
             Op::MutParent => self.parent.as_mut().unwrap().a += 1,
+            Op::DelayFlushSlot => {
+                let g = self.parent.as_ref().unwrap().flush_guard();
+                self.slot_guard.as_mut().unwrap().delay_flush(g);
+            }
+            Op::DelayFlushLazy => {
+                let g = self.parent.as_ref().unwrap().flush_guard();
+                self.lazy_guard.as_mut().unwrap().delay_flush(g);
+            }
+            Op::RearmSlot => {
+                self.parent.as_mut().unwrap().child = Slot::default();
+                self.orphan = self.slot_guard.take();
+            }
+            Op::DelayFlushOrphan => {
+                let g = self.parent.as_ref().unwrap().flush_guard();
+                self.orphan.as_mut().unwrap().delay_flush(g);
+            }
+            Op::DropOrphan => drop_it(self.orphan.take(), self.unwinding),
             Op::DropParent => drop_it(self.parent.take(), self.unwinding),
             Op::EmitParent => metrique::instrument::Instrumented::from_parts((), self.parent.take().unwrap()).emit(),
             Op::MkForce => self.force = Some(self.parent.as_ref().unwrap().force_flush_guard()),
@@ -348,7 +414,7 @@ fn main() {
         }
     }));
     let depth: usize = rep.tier.pick(8, 10);
-    let init = Model { parent_alive: true, a: 0, slot: SlotM::Unopened, lazy: SlotM::Unopened, force_alive: false, force_dropped: false, appended: None };
+    let init = Model { parent_alive: true, a: 0, slot: SlotM::Unopened, lazy: SlotM::Unopened, force_alive: false, force_dropped: false, orphan: None, rearmed: false, appended: None };
     let mut prefixes: Vec<(Vec<Op>, Model)> = Vec::new();
     let mut shallow = St::default();
     shallow.histories += 1;
